@@ -139,8 +139,9 @@ def run_case(case, tier):
         fp = fe.get("file_path")
         per_file_sev.setdefault(fp, collections.Counter())
         for v in fe.get("violations", []):
-            jv[(fp, v["rule"], int(v["linenumber"]), str(v["solution"]))] += 1
-            sev_of[(fp, v["rule"], int(v["linenumber"]), str(v["solution"]), v["severity"])] += 1
+            sol = str(v["solution"]).strip()  # artefacts are compared modulo leading/trailing blanks of the solution text
+            jv[(fp, v["rule"], int(v["linenumber"]), sol)] += 1
+            sev_of[(fp, v["rule"], int(v["linenumber"]), sol, v["severity"])] += 1
             per_file_sev[fp][v["severity"]] += 1
             if SEV_TYPE.get(v["severity"]) == "error":
                 per_file_err[fp] += 1
@@ -150,7 +151,7 @@ def run_case(case, tier):
     qv = collections.Counter()
     for e in Q:
         rule, _, sol = e["description"].partition(" :: ")
-        qv[(e["location"]["path"], rule, int(e["location"]["lines"]["begin"]), sol)] += 1
+        qv[(e["location"]["path"], rule, int(e["location"]["lines"]["begin"]), sol.strip())] += 1
     if qv != jv:
         fail("quality_report_differs_from_json", {"only_json": list((jv - qv))[:2], "only_quality": list((qv - jv))[:2]})
     # junit
@@ -163,7 +164,7 @@ def run_case(case, tier):
                     continue
                 m = re.match(r"^([a-z_0-9]+_\d{3}): (\d+) : (.*)$", line)
                 if m:
-                    xv[(tc.get("name"), m.group(1), int(m.group(2)), _unxml(m.group(3)))] += 1
+                    xv[(tc.get("name"), m.group(1), int(m.group(2)), _unxml(m.group(3)).strip())] += 1
     je = collections.Counter({k[:4]: n for k, n in sev_of.items() if SEV_TYPE.get(k[4]) == "error"})
     je2 = collections.Counter()
     for k, n in je.items():
@@ -184,7 +185,7 @@ def run_case(case, tier):
                 continue
             m = ROW.match(line)
             if m and m.group(1) != "Rule":
-                sv[(cur, m.group(1), int(m.group(3)), m.group(4))] += 1
+                sv[(cur, m.group(1), int(m.group(3)), m.group(4).strip())] += 1
                 blocks[cur]["rows"] += 1
                 blocks[cur]["sev"].setdefault("row:" + m.group(2), 0)
                 blocks[cur]["sev"]["row:" + m.group(2)] += 1
@@ -212,8 +213,8 @@ def run_case(case, tier):
         for line in out.split("\n"):
             m = SYN.match(line)
             if m:
-                sv[(m.group(2), m.group(4), int(m.group(3)), m.group(5))] += 1
-                typ[(m.group(2), m.group(4), int(m.group(3)), m.group(5), m.group(1))] += 1
+                sv[(m.group(2), m.group(4), int(m.group(3)), m.group(5).strip())] += 1
+                typ[(m.group(2), m.group(4), int(m.group(3)), m.group(5).strip(), m.group(1))] += 1
             elif line.strip():
                 lab["syntastic_unparsed_lines"] = lab.get("syntastic_unparsed_lines", 0) + 1
         if sv != jv:
